@@ -209,6 +209,22 @@ def build_block(case, objs, b, built=None):
                 from sweetpea._internal.constraint import ContinuousConstraint    # documented as sweetpea.ContinuousConstraint but not exported
                 cons.append(ContinuousConstraint([built.cont[n] for n in k["names"]], _cont_pred(k["pred"])))
     extra = [built.cont[n] for n in b.get("cont", [])] if built is not None and b.get("cont") else []
+    # C18: "cons_list": key - the python LIST handed to the constructor is one object for every block of the session that
+    # names the key (a user reusing her list); "cons_default" - the argument is omitted (the constructors' default list)
+    if built is not None and b.get("cons_list"):
+        cons = built.cons_lists.setdefault(b["cons_list"], cons)
+    if b.get("cons_default") and not b.get("cons") and op in ("Merge", "Multi"):
+        if op == "Merge":
+            subs = [build_block(case, objs, x, built) for x in b["blocks"]]
+            al = b.get("align")
+            blk = sp.Merge(subs, mode=MODES[b.get("mode", "repeat")], alignment=(ALIGNS[al] if al else None))
+        else:
+            blk = sp.MultiCrossBlock([objs[i - 1] for i in b["design"]], [[objs[i - 1] for i in x] for x in b["crossings"]],
+                                     require_complete_crossing=b.get("rcc", True), mode=MODES[b.get("mode", "equal")],
+                                     alignment=ALIGNS[b.get("align", "equal")])
+        if built is not None:
+            built.blocks.append(blk)
+        return blk
     if op == "Cross":
         blk = sp.CrossBlock([objs[i - 1] for i in b["design"]] + extra, [objs[i - 1] for i in b["crossing"]],
                             cons, b.get("rcc", True))
@@ -239,6 +255,7 @@ def build_block(case, objs, b, built=None):
 
 def build(case):
     built = Built()
+    built.cons_lists = {}
     built.factors = build_factors(case)
     build_continuous(case, built.factors, built)
     # C18: blocks built earlier in the same session, sharing factor objects and (through "share" keys) constraint objects
